@@ -961,7 +961,12 @@ mod response {
         #[inline]
         pub fn ensure_length<T>(&self, response: &mut Response<T>, len: u64) {
             match self {
-                Self::Http1(_) => utils::set_content_length(response.headers_mut(), len),
+                Self::Http1(_) => {
+                    utils::set_content_length(response.headers_mut(), len);
+                    // The body is sent as it is, `len` bytes of it: a `transfer-encoding` left by
+                    // an extension contradicts that, and the two must not go together (RFC 9112 §6.2).
+                    response.headers_mut().remove("transfer-encoding");
+                }
                 // HTTP/2 and HTTP/3 frame the body themselves, but a `content-length` left by an
                 // extension (the length before compression or a range was applied) must not
                 // contradict the body: clients treat that as a protocol error.
